@@ -126,6 +126,10 @@ Proof.
       * (* CHs *)
         break_lets; pair_inv Es; cbn [bans fails set_bl pending_on]; (split; [split|split]); auto;
           try lia; destruct (N.eqb ip0 ip && hk_fails k); lia.
+      * (* CRestart *)
+        pair_inv Es. cbn [bans fails restart pending_on]. split; [split; [reflexivity|]|split; [auto|]].
+        -- unfold frec_ok. cbn. unfold lenZ. cbn. lia.
+        -- cbn [total_of]. destruct Hf. lia.
     + (* PFailB *)
       cbn [continue] in Hs. injection Hs as <- <-. cbn [thr_quiet budget pending_on].
       assert (Hne : ip <> ip0) by congruence.
